@@ -728,6 +728,50 @@ theorem apci_roundtrip_abort (srv : Bool) (inv rsn : Nat) (hinv : inv < 256) (hr
     ∃ hdr, encodeApci h = .ok hdr ∧ decodeApci (hdr ++ payload) = .ok (h, payload) :=
   apci_roundtrip _ (by simp [WFHeader, isBelow, *]) payload
 
+/-! ## the model's constructors build well-formed headers (for the protocol models) -/
+
+/-- in-range optional (sequence, window) pair -/
+def swOk : Option (Nat × Nat) → Bool
+  | none => true
+  | some (s, w) => decide (s < 256) && decide (w < 256)
+
+theorem wf_mkConfirmed (sw : Option (Nat × Nat)) (mor sa : Bool) (ms mr inv svc : Nat)
+    (hsw : swOk sw = true) (hms : ms < 8) (hmr : mr < 16) (hinv : inv < 256) (hsvc : svc < 256) :
+    WFHeader (Apci.mkConfirmed sw mor sa ms mr inv svc) = true := by
+  rcases sw with _ | ⟨s, w⟩ <;>
+    simp_all [Apci.mkConfirmed, WFHeader, segFields, isBelow, swOk]
+
+theorem wf_mkUnconfirmed (svc : Nat) (hsvc : svc < 256) :
+    WFHeader (Apci.mkUnconfirmed svc) = true := by
+  simp [Apci.mkUnconfirmed, WFHeader, isBelow, *]
+
+theorem wf_mkSimpleAck (inv svc : Nat) (hinv : inv < 256) (hsvc : svc < 256) :
+    WFHeader (Apci.mkSimpleAck inv svc) = true := by
+  simp [Apci.mkSimpleAck, WFHeader, isBelow, *]
+
+theorem wf_mkComplexAck (sw : Option (Nat × Nat)) (mor : Bool) (inv svc : Nat)
+    (hsw : swOk sw = true) (hinv : inv < 256) (hsvc : svc < 256) :
+    WFHeader (Apci.mkComplexAck sw mor inv svc) = true := by
+  rcases sw with _ | ⟨s, w⟩ <;>
+    simp_all [Apci.mkComplexAck, WFHeader, segFields, isBelow, swOk]
+
+theorem wf_mkSegmentAck (nak srv : Bool) (inv sq wn : Nat)
+    (hinv : inv < 256) (hsq : sq < 256) (hwn : wn < 256) :
+    WFHeader (Apci.mkSegmentAck nak srv inv sq wn) = true := by
+  simp [Apci.mkSegmentAck, WFHeader, isBelow, *]
+
+theorem wf_mkError (inv svc : Nat) (hinv : inv < 256) (hsvc : svc < 256) :
+    WFHeader (Apci.mkError inv svc) = true := by
+  simp [Apci.mkError, WFHeader, isBelow, *]
+
+theorem wf_mkReject (inv rsn : Nat) (hinv : inv < 256) (hrsn : rsn < 256) :
+    WFHeader (Apci.mkReject inv rsn) = true := by
+  simp [Apci.mkReject, WFHeader, isBelow, *]
+
+theorem wf_mkAbort (srv : Bool) (inv rsn : Nat) (hinv : inv < 256) (hrsn : rsn < 256) :
+    WFHeader (Apci.mkAbort srv inv rsn) = true := by
+  simp [Apci.mkAbort, WFHeader, isBelow, *]
+
 /-- `APDU.decode` is total in the same sense -/
 theorem apdu_total (bs : Bytes) :
     (∃ h payload, decodeApdu bs = .ok (h, payload)) ∨ decodeApdu bs = .error .decoding := by
@@ -745,6 +789,7 @@ def exConfirmed : Apci :=
     seq := some 128, win := some 127, service := some 12 }
 
 example : WFHeader exConfirmed = true := by decide
+example : exConfirmed = Apci.mkConfirmed (some (128, 127)) true false 7 5 255 12 := rfl
 example : encodeApci exConfirmed = .ok [0x0C, 0x75, 0xFF, 0x80, 0x7F, 0x0C] := rfl
 example : decodeApci [0x0C, 0x75, 0xFF, 0x80, 0x7F, 0x0C, 0xAA, 0xBB] =
     .ok (exConfirmed, [0xAA, 0xBB]) := rfl
